@@ -23,7 +23,7 @@ PLAN = {'quick': {'gen': 8}, 'thorough': {'gen': 16, 'tests': 1, 'docs': 1}}
 REQUIRED_BUCKETS = ['range:identical', 'range:nested', 'range:overlap', 'range:disjoint', 'grid:uniform', 'grid:nonuniform',
                     'op:add', 'op:subtract', 'op:multiply', 'op:divide', 'op:power', 'sampling:min', 'sampling:left',
                     'sampling:right', 'sampling:float', 'fill:0', 'fill:nonzero', 'unit:nm', 'unit:um', 'unit:m',
-                    'unit:angstrom', 'unit:mixed', 'scalar', 'vector', 'method:quadratic', 'method:cubic', 'blackbody', 'density', 'update-sequence', 'values:integer', 'scalar:numpy-type', 'same-spectrum:two-units']
+                    'unit:angstrom', 'unit:mixed', 'scalar', 'vector', 'method:quadratic', 'method:cubic', 'blackbody', 'density', 'update-sequence', 'values:integer', 'scalar:numpy-type', 'same-spectrum:two-units', 'grid:decimal-step']
 REQUIRED_ANCHORS = ['probe:Spectrum._ufunc', 'anchor:_interp_common', 'anchor:_sampling', 'anchor:Spectrum.sample']
 REQUIRED_ORACLES = ['grid', 'value=op(interp)', 'new-object', 'commutative', 'unit-agnostic', 'operands-physically-unchanged',
                     'scalar-elementwise']
@@ -117,7 +117,10 @@ def ufunc_oracle(ctx, args, kwargs, result, exc, pre):
     g = np.asarray(result.wave, float)
     steps = len(g) - 1
     q = (hi - lo) / dw
-    okn = steps == int(np.ceil(q)) or (abs(q - round(q)) < 1e-9 * max(1, q) and abs(steps - round(q)) <= 1)
+    # number of steps = ceil(range / sampling); when that ratio is an integer up to rounding (0.1-steps: 1.0/0.1 = 10.000000000000002)
+    # it IS that integer - identical grids are then combined sample by sample, without an extra point
+    near_int = abs(q - round(q)) < 1e-9 * max(1, q)
+    okn = (steps == round(q)) if near_int else (steps == int(np.ceil(q)))
     uniform = len(g) < 3 or float(np.max(np.abs(np.diff(g) - (hi - lo) / max(steps, 1)))) <= 1e-9 * (hi - lo)
     # the ends of the union are samples of the operands themselves (same unit): the grid starts and ends on them exactly
     ctx.check(len(g) >= 2 and g[0] == lo and g[-1] == hi and uniform and okn,
@@ -338,7 +341,9 @@ def workload(ctx, lentil):
                     dws = {'min': min(np.diff(wa).min(), np.diff(wb).min()), 'left': np.diff(wa).min(),
                            'right': np.diff(wb).min()}.get(sampling, sampling)
                     q = (max(wa[-1], wb[-1]) - min(wa[0], wb[0])) / dws
-                    if abs(q - round(q)) < 1e-9 * max(1.0, q):
+                    # (only ratios that sit right at the rounding threshold of 1e-9 are undecidable; ratios that are integers
+                    # up to rounding give the same count in every unit)
+                    if 1e-10 * max(1.0, q) < abs(q - round(q)) < 1e-8 * max(1.0, q):
                         ctx.skip('unit relation: step count at a ceil() tie')
                         continue
                 same = len(g2) == len(gnm) and np.allclose(g2, gnm, rtol=1e-9, atol=0)
@@ -464,6 +469,20 @@ def workload(ctx, lentil):
         except Exception as e:
             ctx.check(False, 'scalar-elementwise', f'scalar|raises={type(e).__name__}', str(e), {'op': opn, 'kind': kind, 'type': type(other).__name__})
 
+    # ---- grids with decimal steps (400, 400.1, 400.2 ...): combining a spectrum with one on the identical grid is sample by sample
+    for i in range(max(6, n // 12)):
+        k = int(rng.integers(4, 60))
+        step = float(rng.choice([0.1, 0.2, 0.3, 0.7, 0.05, 1e-3, 2.5e-4]))
+        w = float(rng.integers(300, 900)) + step * np.arange(k)
+        v1, v2 = rng.uniform(0.5, 2, size=k), rng.uniform(0.5, 2, size=k)
+        ctx.case({'decimal-step-grid': step, 'n': k}, ['grid:decimal-step'])
+        try:
+            r = R.Spectrum(w.copy(), v1) + R.Spectrum(w.copy(), v2)        # online oracle: grid (step count) and values
+            ctx.check(len(r.wave) == k and np.allclose(np.asarray(r.value, float), v1 + v2, rtol=1e-9), 'grid', 'grid|identical-decimal-grid',
+                      'two spectra on the identical grid are not combined sample by sample (an extra grid point was added)',
+                      {'step': step, 'n': [k, len(r.wave)]})
+        except Exception as e:
+            ctx.check(False, 'grid', f'grid|identical-decimal-grid|raises={type(e).__name__}', str(e), {'step': step})
     # ---- the same spectrum held in two units (the second copy converted by lentil itself): every sample of the union is
     # defined in both operands, in either order - including the first and the last one
     for i in range(max(8, n // 8)):
